@@ -68,6 +68,8 @@ enum COp {
     Drain,
     Setcap(u64),
     Stat,
+    /// n inserts of fresh clean frames for two reserved page ids in turn
+    Churn(u64),
 }
 
 fn parse_cop(ws: &[&str]) -> Option<COp> {
@@ -93,6 +95,13 @@ fn parse_cop(ws: &[&str]) -> Option<COp> {
         ["drain"] => COp::Drain,
         ["setcap", n] => COp::Setcap(num(n)?),
         ["stat"] => COp::Stat,
+        ["churn", n] => {
+            let n = num(n)?;
+            if n > 200_000 {
+                return None;
+            }
+            COp::Churn(n)
+        }
         _ => return None,
     })
 }
@@ -191,6 +200,26 @@ fn exec_seq(cap: u64, ops: &[COp]) -> String {
                 "ok".to_string()
             }
             COp::Stat => format!("cap={} n={}", cache.capacity(), cache.num_frames()),
+            COp::Churn(n) => {
+                const CHURN_BASE: u64 = 1 << 40;
+                let mut evictions = 0u64;
+                let mut failed = None;
+                for i in 0..*n {
+                    let f = vc::new_frame(CHURN_BASE + i % 2, SEQ_PAGE_SIZE, &0u64.to_le_bytes(), false);
+                    match cache.insert(f) {
+                        Ok(Some(_)) => evictions += 1,
+                        Ok(None) => {}
+                        Err(e) => {
+                            failed = Some(err_class(&e));
+                            break;
+                        }
+                    }
+                }
+                match failed {
+                    Some(e) => e,
+                    None => format!("churn {}", evictions),
+                }
+            }
         };
         outs.push(o);
     }
@@ -509,19 +538,60 @@ impl GridCfg {
     }
 }
 
+/// Frames the tree code may hold at once: the root-to-leaf path, the page being split or merged, `siblings` pages on
+/// each side of it, the parent, fresh pages. Measured on 2 300 small-cache runs: out-of-memory answers occur up to a
+/// cache of 10 pages with 1–2 siblings per side and up to 12 with 3–4, never at 16. A cache below this bound is
+/// `cache_too_small`: an explicit out-of-memory error is tolerated there and nowhere else.
+fn pin_bound(siblings: usize) -> usize {
+    2 * siblings + 10
+}
+
+const GRID_PAGES: [usize; 5] = [4096, 8192, 16384, 32768, 65536];
+const GRID_CACHES: [usize; 9] = [24, 32, 48, 64, 128, 256, 1024, 4096, 10000];
+
 fn grid_configs(seed: u64, n: u64, small: bool) -> Vec<GridCfg> {
     let mut rng = Rng::new(seed).fork("grid-configs");
     // the reference: the configuration every SQL-level test of the code base runs with
     let mut v = vec![GridCfg { page: 4096, cache: 10000, pool: 2, min_keys: 3, siblings: 2, ckpt: false }];
     while (v.len() as u64) < n.max(2) {
-        let cache = if small && v.len() % 3 == 1 { *rng.pick(&[4usize, 8, 16, 24]) } else { *rng.pick(&[48usize, 128, 1024, 10000]) };
+        let siblings = rng.range(1, 4) as usize;
+        let cache = if small && v.len() % 3 == 1 {
+            // below or just at the pin bound: eviction at every step, out-of-memory tolerated below the bound
+            *rng.pick(&[4usize, 8, 12, 16, 20])
+        } else {
+            *rng.pick(&GRID_CACHES)
+        };
         let c = GridCfg {
-            page: *rng.pick(&[4096usize, 8192, 16384, 32768, 65536]),
+            page: *rng.pick(&GRID_PAGES),
             cache,
             pool: *rng.pick(&[1usize, 2, 8]),
-            min_keys: *rng.pick(&[3usize, 5]),
-            siblings: *rng.pick(&[1usize, 2, 3]),
+            min_keys: rng.range(3, 8) as usize,
+            siblings,
             ckpt: rng.chance(1, 2),
+        };
+        if !v.contains(&c) {
+            v.push(c);
+        }
+    }
+    v
+}
+
+/// configurations for the script grids (`sqlgrid`, `histgrid`): every cache is at or above the pin bound, so that no
+/// out-of-memory error is legitimate and any difference at all is a failure
+fn script_configs(seed: u64, n: u64) -> Vec<GridCfg> {
+    let mut rng = Rng::new(seed).fork("script-configs");
+    let mut v = vec![GridCfg { page: 4096, cache: 10000, pool: 2, min_keys: 3, siblings: 2, ckpt: false }];
+    while (v.len() as u64) < n.max(2) {
+        let siblings = rng.range(1, 4) as usize;
+        let b = pin_bound(siblings);
+        let cache = *rng.pick(&[b, b, b + 2, 24, 32, 64, 256, 1024, 4096]);
+        let c = GridCfg {
+            page: *rng.pick(&GRID_PAGES),
+            cache: cache.max(b),
+            pool: *rng.pick(&[1usize, 2, 8]),
+            min_keys: rng.range(3, 8) as usize,
+            siblings,
+            ckpt: false,
         };
         if !v.contains(&c) {
             v.push(c);
@@ -645,6 +715,8 @@ fn run_workload_into(cfg: GridCfg, stmts: Vec<GStmt>, path: std::path::PathBuf, 
             GStmt::Bulk(lo, n, k, len) => {
                 let mut out = (format!("affected {}", n), false);
                 for id in *lo..*lo + *n {
+                    // every single INSERT gets the full time limit
+                    let _ = tx.send("<tick>".into());
                     let (r, dead) = exec(&sql_of(&GStmt::Ins(id, *k, *len)).unwrap());
                     if r != "affected 1" {
                         out = (if dead { r } else { format!("{} at id {}", r, id) }, dead);
@@ -681,11 +753,12 @@ fn run_workload(cfg: &GridCfg, stmts: &[GStmt]) -> Vec<String> {
     let handle = std::thread::spawn(move || run_workload_into(c, st, path, tx));
     let mut res: Vec<String> = Vec::with_capacity(stmts.len() + 4);
     loop {
-        match rx.recv_timeout(std::time::Duration::from_secs(20)) {
+        match rx.recv_timeout(std::time::Duration::from_secs(30)) {
             Ok(r) if r == "<end>" => {
                 let _ = handle.join();
                 break;
             }
+            Ok(r) if r == "<tick>" => {}
             Ok(r) => res.push(r),
             Err(std::sync::mpsc::RecvTimeoutError::Timeout) => {
                 res.push("hang".into());
@@ -812,7 +885,7 @@ fn exec_grid_with(cfgs: Vec<GridCfg>, stmts: &[GStmt]) -> String {
     let mut tolerated = 0;
     for c in &cfgs[1..] {
         let got = run_workload(c, stmts);
-        let too_small = c.cache < 48;
+        let too_small = c.cache < pin_bound(c.siblings);
         for i in 0..reference.len().max(got.len()) {
             let r = reference.get(i).map(|s| s.as_str()).unwrap_or("<missing>");
             let g = got.get(i).map(|s| s.as_str()).unwrap_or("<missing>");
@@ -845,9 +918,8 @@ fn short(s: &str) -> String {
 fn gen_grid(rng: &mut Rng, n_cfg: u64, big: bool) -> String {
     let n = rng.range(50, 130) as usize;
     let small = rng.chance(1, 2);
-    // Every INSERT adds a version to the table's catalog row and the version counter is one byte: the 256th insert
-    // into a table panics (tuple.rs:1020, add with overflow; C18's defect). Stay below that.
-    const MAX_INSERTS: u64 = 240;
+    // enough rows that the database outgrows the small caches of the grid under every page size
+    const MAX_INSERTS: u64 = 1200;
     let mut inserted = 0u64;
     let mut ids: Vec<u64> = Vec::new();
     let mut next_id = 1u64;
@@ -867,7 +939,7 @@ fn gen_grid(rng: &mut Rng, n_cfg: u64, big: bool) -> String {
         }
     };
     // enough rows that the database outgrows a 48-page cache of 4 KiB pages in some workloads
-    let bulk_rows = if big { 12 } else { *rng.pick(&[20u64, 40, 80]) };
+    let bulk_rows = if big { *rng.pick(&[12u64, 40]) } else { *rng.pick(&[40u64, 120, 300]) };
     for i in 0..n {
         let any = |rng: &mut Rng, ids: &Vec<u64>| if ids.is_empty() { 1 } else { *rng.pick(ids) };
         let mut r = if i < 6 { 0 } else if i < 9 { 45 } else { rng.below(100) };
@@ -928,6 +1000,218 @@ fn gen_grid(rng: &mut Rng, n_cfg: u64, big: bool) -> String {
     format!("grid {} {} {} | {}", rng.below(1 << 40), n_cfg, small as u8, ops.join(" ; "))
 }
 
+// ------------------------------------------------------------------------------------------------ script grids
+//
+// The *same SQL script*, produced by the generators of the `sql` engine (C05: joins, aggregates, ORDER BY/LIMIT,
+// DML) and of the `hist` engine (C04: interleaved sessions, commits and rollbacks), executed on databases created with
+// different configurations: page 4–64 KiB, cache from the pin bound to 4096 pages, min keys 3–8, siblings 1–4, pool 1/2/8.
+//   sqlgrid <config seed> <n configs> m | sql <db> ; <stmt> ; …    answer: the statements' canonical results (the
+//                                                                     Lean side answers with the logical model's)
+//   sqlgrid <config seed> <n configs> x | sql <db> ; <stmt> ; …    (tables blown up) answer: `same`
+//   histgrid <config seed> <n configs> | <hist case>                 answer: `same`
+// Any difference between two configurations is a failure (`PROPFAIL diff …`).
+
+/// Runs `job` in a thread and collects what it sends until it sends `<end>`; a result that does not arrive within
+/// `secs` seconds is recorded as `hang` and the thread is abandoned.
+fn collect_with_watchdog<F>(job: F, secs: u64) -> Vec<String>
+where
+    F: FnOnce(std::sync::mpsc::Sender<String>) + Send + 'static,
+{
+    let (tx, rx) = std::sync::mpsc::channel::<String>();
+    let handle = std::thread::spawn(move || job(tx));
+    let mut res: Vec<String> = Vec::new();
+    loop {
+        match rx.recv_timeout(std::time::Duration::from_secs(secs)) {
+            Ok(r) if r == "<end>" => {
+                let _ = handle.join();
+                break;
+            }
+            Ok(r) => res.push(r),
+            Err(std::sync::mpsc::RecvTimeoutError::Timeout) => {
+                res.push("hang".into());
+                break;
+            }
+            Err(std::sync::mpsc::RecvTimeoutError::Disconnected) => {
+                let _ = handle.join();
+                break;
+            }
+        }
+    }
+    res
+}
+
+fn run_sql_script(cfg: &GridCfg, case_line: &str) -> Vec<String> {
+    use super::sql;
+    let dir = Scratch::new("sqlgrid");
+    let path = dir.0.join("c12sql.db");
+    let (c, line) = (*cfg, case_line.to_string());
+    collect_with_watchdog(
+        move |tx| {
+            sql::install_worker_panic_recorder();
+            let Some((tables, stmts)) = sql::parse_case(&line) else {
+                let _ = tx.send("bad-op".into());
+                return;
+            };
+            let dbc = axmosdb::DBConfig::new(c.page, c.cache, c.pool, c.min_keys, c.siblings);
+            let db = match axmosdb::Database::create(&path, dbc) {
+                Ok(d) => d,
+                Err(e) => {
+                    let _ = tx.send(format!("create-failed {}", db_err_class(&e)));
+                    return;
+                }
+            };
+            if let Err(e) = sql::load(&db, &tables) {
+                let _ = tx.send(format!("load-failed oom={} {:?}", e.to_lowercase().contains("out of memory"), sql::take_worker_panic()));
+                return;
+            }
+            let mut failed_dml = false;
+            for st in &stmts {
+                // as in the `sql` engine: what a failed INSERT/UPDATE/DELETE leaves behind is C03's business
+                if failed_dml {
+                    let _ = tx.send("-".into());
+                    continue;
+                }
+                let o = sql::run_stmt(&db, &tables, st);
+                if !matches!(st, sql::Stmt::Select(_)) && o.starts_with('E') {
+                    failed_dml = true;
+                }
+                if let Some(p) = sql::take_worker_panic() {
+                    let _ = tx.send(format!("panic@{}", p));
+                    return;
+                }
+                let _ = tx.send(o);
+            }
+            drop(db);
+            let _ = tx.send("<end>".into());
+        },
+        30,
+    )
+}
+
+fn compare_script_runs(cfgs: &[GridCfg], runs: &[Vec<String>]) -> Option<String> {
+    let reference = &runs[0];
+    if let Some(i) = reference
+        .iter()
+        .position(|r| r == "hang" || r.starts_with("panic@") || r.starts_with("create-failed") || r.starts_with("load-failed"))
+    {
+        return Some(format!("PROPFAIL reference config={} stmt={} got={}", cfgs[0].show(), i, short(&reference[i])));
+    }
+    for (c, got) in cfgs.iter().zip(runs.iter()).skip(1) {
+        for i in 0..reference.len().max(got.len()) {
+            let r = reference.get(i).map(|s| s.as_str()).unwrap_or("<missing>");
+            let g = got.get(i).map(|s| s.as_str()).unwrap_or("<missing>");
+            if r != g {
+                return Some(format!("PROPFAIL diff config={} stmt={} ref={} got={}", c.show(), i, short(r), short(g)));
+            }
+        }
+    }
+    None
+}
+
+fn exec_sqlgrid(seed: u64, ncfg: u64, with_model: bool, case_line: &str) -> String {
+    if super::sql::parse_case(case_line).is_none() {
+        return "bad-op".into();
+    }
+    let cfgs = script_configs(seed, ncfg);
+    let runs: Vec<Vec<String>> = cfgs.iter().map(|c| run_sql_script(c, case_line)).collect();
+    match compare_script_runs(&cfgs, &runs) {
+        Some(f) => f,
+        // all configurations agree. Mode `m`: the answer is the script's canonical results, which the Lean side computes
+        // with the logical model (that model takes no configuration argument). Mode `x` (tables blown up beyond what the
+        // list-based model answers in reasonable time): the answer is `same`.
+        None if with_model => format!("{} ## configs={}", runs[0].join(" ; "), cfgs.len()),
+        None => format!("same ## configs={} stmts={}", cfgs.len(), runs[0].len()),
+    }
+}
+
+fn exec_histgrid(seed: u64, ncfg: u64, case_line: &str) -> String {
+    if super::hist::parse_case(case_line).is_none() {
+        return "bad-op".into();
+    }
+    let cfgs = script_configs(seed, ncfg);
+    let runs: Vec<Vec<String>> = cfgs
+        .iter()
+        .map(|c| {
+            let (c, line) = (*c, case_line.to_string());
+            let out = collect_with_watchdog(
+                move |tx| {
+                    let dbc = axmosdb::DBConfig::new(c.page, c.cache, c.pool, c.min_keys, c.siblings);
+                    let o = super::hist::run_case_with(&line, dbc);
+                    let _ = tx.send(o);
+                    let _ = tx.send("<end>".into());
+                },
+                60,
+            );
+            // one answer per operation of the history (the gating part of the `hist` engine's line)
+            match out.first() {
+                Some(o) if o != "hang" => o.split(" ## ").next().unwrap_or("").split(" ; ").map(|x| x.to_string()).collect(),
+                _ => vec!["hang".to_string()],
+            }
+        })
+        .collect();
+    match compare_script_runs(&cfgs, &runs) {
+        Some(f) => f,
+        None => format!("same ## configs={} ops={}", cfgs.len(), runs[0].len()),
+    }
+}
+
+/// `factor` copies of every row of every table of a `sql` case (same statements): trees of more than one page under
+/// the small page sizes, so that geometry and eviction can matter at all
+fn inflate_sql_case(line: &str, factor: usize) -> Option<String> {
+    use super::sql;
+    let (mut tables, stmts) = sql::parse_case(line)?;
+    for t in tables.iter_mut() {
+        let base = t.rows.clone();
+        for _ in 1..factor {
+            t.rows.extend(base.iter().cloned());
+        }
+    }
+    Some(format!("sql {} ; {}", sql::show_db(&tables), stmts.iter().map(sql::show_stmt).collect::<Vec<_>>().join(" ; ")))
+}
+
+fn gen_script_grids(rng: &mut Rng, tier: Tier, lines: &mut Vec<String>) {
+    use super::sql;
+    let (n_sql, n_hist) = if tier == Tier::Thorough { (240, 300) } else { (24, 30) };
+    // scripts of the `sql` engine's generator
+    let src = super::sql::SqlEngine.gen_cases(&mut rng.fork("sqlgrid-src"), Tier::Quick);
+    let mut r = rng.fork("sqlgrid");
+    let mut taken = 0;
+    for case in src.iter() {
+        if taken >= n_sql {
+            break;
+        }
+        let Some((tables, _)) = sql::parse_case(&case.line) else { continue };
+        let max_rows = tables.iter().map(|t| t.rows.len()).max().unwrap_or(0).max(1);
+        // keep the largest possible join below ~250 000 combinations (the engine joins by nested loops, and the Lean
+        // model that answers the same script is a plain list program)
+        let budget = match tables.len() {
+            // a statement may join a table with itself up to three times
+            1 => 60,
+            2 => 40,
+            _ => 16,
+        };
+        let factor = (budget / max_rows).clamp(1, 60);
+        let Some(inflated) = inflate_sql_case(&case.line, factor) else { continue };
+        if inflated.len() > 60_000 {
+            continue;
+        }
+        // alternately: the script as generated, checked against the logical model too; the script on blown-up tables
+        if taken % 2 == 0 {
+            lines.push(format!("sqlgrid {} {} m | {}", r.below(1 << 40), 8, case.line));
+        } else {
+            lines.push(format!("sqlgrid {} {} x | {}", r.below(1 << 40), 8, inflated));
+        }
+        taken += 1;
+    }
+    // histories of the `hist` engine's generator
+    let hsrc = super::hist::HistEngine.gen_cases(&mut rng.fork("histgrid-src"), Tier::Quick);
+    let stride = (hsrc.len() / n_hist).max(1);
+    let mut rh = rng.fork("histgrid");
+    for case in hsrc.iter().step_by(stride).take(n_hist) {
+        lines.push(format!("histgrid {} {} | {}", rh.below(1 << 40), 6, case.line));
+    }
+}
+
 fn gen_seq(rng: &mut Rng) -> String {
     let cap = match rng.below(10) {
         0 => 0,
@@ -983,7 +1267,12 @@ fn gen_seq(rng: &mut Rng) -> String {
         } else if take(clear_w) {
             if rng.chance(1, 4) { "drain".to_string() } else { "clear".to_string() }
         } else if take(setcap_w) {
-            format!("setcap {}", rng.below(cap + 4))
+            if rng.chance(1, 3) {
+                // tens of thousands of evictions in one operation (the eviction counter of the cache is 16 bits wide)
+                format!("churn {}", *rng.pick(&[3u64, 40, 70_000]))
+            } else {
+                format!("setcap {}", rng.below(cap + 4))
+            }
         } else {
             "stat".to_string()
         };
@@ -1169,7 +1458,7 @@ fn tags_of(line: &str, out: &str) -> Vec<String> {
         }
         "grid" | "gridx" => {
             tags.push("nt".into());
-            if (kind == "grid" && ws[3] == "1") || (kind == "gridx" && ws[2].parse::<u64>().unwrap_or(0) < 48) {
+            if (kind == "grid" && ws[3] == "1") || (kind == "gridx" && ws[2].parse::<usize>().unwrap_or(0) < pin_bound(ws[5].parse::<usize>().unwrap_or(1))) {
                 tags.push("cache_too_small".into());
             }
             if out.contains("tolerated_oom=") && !out.contains("tolerated_oom=0") {
@@ -1202,9 +1491,18 @@ fn tags_of(line: &str, out: &str) -> Vec<String> {
                     }
                 })
                 .sum();
-            tags.push(if rows > 120 { "rows>120".into() } else { "rows<=120".into() });
+            tags.push(if rows > 1000 { "rows>1000".into() } else { "rows<=1000".into() });
             if body.contains("ckpt") {
                 tags.push("op:ckpt".into());
+            }
+        }
+        "sqlgrid" | "histgrid" => {
+            tags.push("nt".into());
+            if kind == "sqlgrid" {
+                tags.push(if ws[3] == "m" { "sqlgrid:vs-model".into() } else { "sqlgrid:blown-up".into() });
+                if line.contains(" join ") {
+                    tags.push("sqlgrid:join".into());
+                }
             }
         }
         "cfg" => {
@@ -1243,13 +1541,15 @@ impl Engine for CacheEngine {
             // 6 of 8 workloads stay below 300 bytes per row; 2 of 8 carry large rows (region `bigrows`)
             lines.push(gen_grid(&mut r_grid, 12, i % 4 == 3));
         }
+        gen_script_grids(rng, tier, &mut lines);
         // Tags describe what the case reaches on the real code (outcome classes), so they are measured, not guessed.
         // The cases are run in supervised child processes (an abort of the code under test must not kill `gen`);
         // grid cases are too slow to run twice and are tagged from their text alone.
         let dir = Scratch::new("gen");
         let cp = dir.0.join("cases");
         let op = dir.0.join("outs");
-        let fast: Vec<&String> = lines.iter().filter(|l| !l.starts_with("grid ")).collect();
+        let slow = |l: &str| l.starts_with("grid ") || l.starts_with("sqlgrid ") || l.starts_with("histgrid ");
+        let fast: Vec<&String> = lines.iter().filter(|l| !slow(l)).collect();
         std::fs::write(&cp, fast.iter().map(|l| format!("{}\n", l)).collect::<String>()).unwrap();
         crate::supervise::run("cache", None, self.timeout_ms(), cp.to_str().unwrap(), op.to_str().unwrap(), 8);
         let outs_text = std::fs::read_to_string(&op).unwrap_or_default();
@@ -1257,7 +1557,7 @@ impl Engine for CacheEngine {
         lines
             .iter()
             .map(|line| {
-                let out = if line.starts_with("grid ") { "" } else { outs.next().unwrap_or("") };
+                let out = if slow(line) { "" } else { outs.next().unwrap_or("") };
                 Case { line: line.clone(), tags: tags_of(line, out) }
             })
             .collect()
@@ -1300,6 +1600,22 @@ impl Engine for CacheEngine {
                     Some(st) => exec_grid(seed, ncfg, small, &st),
                     None => "bad-op".into(),
                 }
+            }
+            ["sqlgrid", seed, ncfg, mode, "|", ..] => {
+                let (Some(seed), Some(ncfg)) = (num(seed), num(ncfg)) else { return "bad-op".into() };
+                if !(2..=64).contains(&ncfg) || !(*mode == "m" || *mode == "x") {
+                    return "bad-op".into();
+                }
+                let Some((_, script)) = line.split_once(" | ") else { return "bad-op".into() };
+                exec_sqlgrid(seed, ncfg, *mode == "m", script.trim())
+            }
+            ["histgrid", seed, ncfg, "|", ..] => {
+                let (Some(seed), Some(ncfg)) = (num(seed), num(ncfg)) else { return "bad-op".into() };
+                if !(2..=64).contains(&ncfg) {
+                    return "bad-op".into();
+                }
+                let Some((_, script)) = line.split_once(" | ") else { return "bad-op".into() };
+                exec_histgrid(seed, ncfg, script.trim())
             }
             ["gridx", page, cache, pool, mk, sib, ckpt, "|", rest @ ..] => {
                 // the reference configuration against one explicitly given configuration
